@@ -12,8 +12,8 @@ theorem stmt_while (is : List Instruction) (fuel : Nat) (hB : BlockSim is fuel)
     (kw : Str) (cond : List Str) (body : Block) (kwEnd : Str)
     (hW : StmtSimFor is fuel (.whileLoop kw cond body kwEnd)) :
     StmtSimFor is (fuel + 1) (.whileLoop kw cond body kwEnd) := by
-  intro lo s t t' hwf hs hat hc hrel hfor hex
-  have hnf := Stmt.noFn_of_simple _ hs
+  intro lo s t t' hwf hs hat hc hrel hfor hsafe hex
+  have hnf := Stmt.noFn_of_simple2 _ hs
   have hscan : findCommands whileTables is (lo + 1) = .ok ⟨[], lo + 1 + body.flatten.length⟩ := by
     obtain ⟨pre, post, hpl, his⟩ := hat
     have := C04_scan_while pre post kw cond body kwEnd hwf hnf
@@ -29,7 +29,7 @@ theorem stmt_while (is : List Instruction) (fuel : Nat) (hB : BlockSim is fuel)
   have hfor0 := hfor
   rw [flatten_while] at hat
   simp only [flatten_while, List.length_cons, List.length_append, List.length_nil] at hfor ⊢
-  simp only [Stmt.wf, Stmt.simple, Bool.and_eq_true] at hwf hs
+  simp only [Stmt.wf, Stmt.simple2, Bool.and_eq_true] at hwf hs
   obtain ⟨⟨hkw, hbwf⟩, hkend⟩ := hwf
   obtain ⟨hcs, hbs⟩ := hs
   have hi := At.head hat
@@ -40,37 +40,54 @@ theorem stmt_while (is : List Instruction) (fuel : Nat) (hB : BlockSim is fuel)
   cases fuel with
   | zero => simp [execStmt, evalCond] at hex
   | succ f =>
-    simp only [execStmt, evalCond_simple is f cond t hcs hrel.tfns hrel.tsfns] at hex
-    cases hv : condVal (bind t.vars (some cond)) with
-    | error e => rw [hv] at hex; simp at hex
-    | ok bv =>
-      rw [hv] at hex
+    simp only [execStmt] at hex
+    simp only [safeStmt, Bool.and_eq_true] at hsafe
+    obtain ⟨hcsafe, hsafe'⟩ := hsafe
+    cases hec : evalCond is (f + 1) cond t with
+    | none => rw [hec] at hex; simp at hex
+    | some pr =>
+      obtain ⟨bv, t1⟩ := pr
+      rw [hec] at hex hsafe'
+      obtain ⟨em, rfl, hbne, hev⟩ := cond_sim is f cond t t1 bv hcs hcsafe hrel.tfns hrel.tsfns hec
+      have hv : CondSays is (bind t.vars (some cond)) t.vars s.emitted bv em :=
+        ⟨hbne, fun f' hf' s' h1 h2 => hev f' hf' is s' h1 (h2.trans hrel.emitted)⟩
       cases bv with
       | false =>
         simp only [TOut.normal.injEq] at hex
         subst hex
-        obtain ⟨M, hstep1, hcache1⟩ := step_while_false is lo t.vars s _ kw cond [] stop hi hkw hcs
+        obtain ⟨M, hstep1, hcache1⟩ := step_while_false is lo t.vars s _ kw cond [] stop em hi hkw
           hrel.sfns hc hscan hv
         exact ⟨_, hstep1,
-          SimCore.opener stop fullNameEndWhile hcache1 hrel rfl rfl rfl rfl rfl rfl (by omega) (by omega),
+          SimCore.opener stop fullNameEndWhile (hcache1.of_eq rfl rfl rfl rfl) hrel rfl rfl rfl rfl rfl
+            rfl (by omega) (by omega),
           Garb.refl _ _ _ _, Garb.refl _ _ _ _, rfl⟩
       | true =>
-        simp only at hex
-        cases hb : execBlock is (f + 1) body t with
+        simp only [Bool.and_eq_true] at hex hsafe'
+        cases hb : execBlock is (f + 1) body (withEm t em) with
         | returning v t1 => rw [hb] at hex; simp at hex
         | failed => rw [hb] at hex; simp at hex
         | outOfFuel => rw [hb] at hex; simp at hex
         | normal t1 =>
           rw [hb] at hex
-          simp only at hex
-          obtain ⟨M, hstep1, hcache1⟩ := step_while_true is lo t.vars s _ kw cond [] stop hi hkw hcs
+          have hsafe2 := hsafe'.2
+          rw [hb] at hsafe2
+          simp only at hex hsafe2
+          obtain ⟨M, hstep1, hcache1⟩ := step_while_true is lo t.vars s _ kw cond [] stop em hi hkw
             hrel.sfns hc hscan hv
+          have hopen : SimCore is lo (stop + 1)
+              (fun x => Stmt.assigns x (.whileLoop kw cond body kwEnd)) s t (withEm t em)
+              { s with whileMeta := M, endTable := s.endTable.put (lineKey s stop) fullNameEndWhile,
+                       emitted := em,
+                       whileStack := { start := lo, stop := stop, ctx := s.lineCtx } :: s.whileStack } :=
+            SimCore.opener stop fullNameEndWhile (hcache1.of_eq rfl rfl rfl rfl) hrel rfl rfl rfl rfl rfl
+              rfl (by omega) (by omega)
           obtain ⟨s2, hst2, hcore2, hif2, hwh2, hfor2⟩ :=
             hB body (lo + 1)
               { s with whileMeta := M, endTable := s.endTable.put (lineKey s stop) fullNameEndWhile,
+                       emitted := em,
                        whileStack := { start := lo, stop := stop, ctx := s.lineCtx } :: s.whileStack }
-              t t1 hbwf hbs hat'.left (hcache1.of_eq rfl rfl rfl rfl) (hrel.of_eq rfl rfl rfl rfl)
-              (hfor.mono (by omega) (by omega)) hb
+              (withEm t em) t1 hbwf hbs hat'.left hopen.cache hopen.rel
+              (hfor.mono (by omega) (by omega)) hsafe'.1 hb
           rw [hstopdef] at hst2 hcore2 hif2 hwh2
           obtain ⟨G, hG1, hG2⟩ := hwh2
           have hend2 : s2.endTable.get (lineKey s2 stop) = some fullNameEndWhile := by
@@ -88,17 +105,11 @@ theorem stmt_while (is : List Instruction) (fuel : Nat) (hB : BlockSim is fuel)
               (by
                 have : ({ s2 with whileStack := { start := lo, stop := stop, ctx := s.lineCtx } ::
                     s.whileStack } : Sdk).forStack = s.forStack := hfor2
-                rw [this]; exact hfor0) hex
+                rw [this]; exact hfor0) hsafe2 hex
           simp only [flatten_while, List.length_cons, List.length_append, List.length_nil] at hst4 hcore4 hif4 hwh4
           rw [hhi] at hst4 hcore4 hif4 hwh4
           refine ⟨s4, ((hstep1.trans hst2).trans hstep3).trans hst4, ?_, ?_, ?_, ?_⟩
-          · have hopen : SimCore is lo (stop + 1)
-                (fun x => Stmt.assigns x (.whileLoop kw cond body kwEnd)) s t t
-                { s with whileMeta := M, endTable := s.endTable.put (lineKey s stop) fullNameEndWhile,
-                         whileStack := { start := lo, stop := stop, ctx := s.lineCtx } :: s.whileStack } :=
-              SimCore.opener stop fullNameEndWhile (hcache1.of_eq rfl rfl rfl rfl) hrel rfl rfl rfl rfl rfl
-                rfl (by omega) (by omega)
-            refine (hopen.trans (hcore2.mono' (by omega) (by omega) ?_)).trans (hcore4.core_left rfl)
+          · refine (hopen.trans (hcore2.mono' (by omega) (by omega) ?_)).trans (hcore4.core_left rfl)
             intro x hx
             simp only [Stmt.assigns] at hx
             exact hx
@@ -162,13 +173,14 @@ def ForSim (is : List Instruction) (fuel : Nat) : Prop :=
   ∀ (kw x handle hn : Str) (body : Block) (kwEnd : Str) (lo : Nat) (own : ForCall) (K : List ForCall)
     (L items : List Str) (s : Sdk) (t t' : TState),
     isForKw kw = true → body.wf = true → isEndForKw kwEnd = true → isLiteral x = true →
-    body.simple = true → handleVar? handle = some hn → x ≠ hn → body.assigns hn = false →
+    body.simple2 = true → handleVar? handle = some hn → x ≠ hn → body.assigns hn = false →
     At is lo (Stmt.forIn kw x handle body kwEnd).flatten →
     s.forStack = own :: K → own.start = lo → own.stop = lo + 1 + body.flatten.length →
     own.ctx = s.lineCtx →
     (t.sdk.handles.get ((t.vars.get hn).getD [])).getD [] = L → L.drop own.iteration = items →
     s.endTable.get (lineKey s (lo + 1 + body.flatten.length)) = some fullNameEndForIn →
     CacheOK is s → Rel s t → ForOK lo (lo + 1 + body.flatten.length + 1) K →
+    safeFor is fuel x items body t = true →
     execFor is fuel x items body t = .normal t' →
     ∃ s', Steps is lo t.vars s (lo + 1 + body.flatten.length + 1) t'.vars s' ∧
       SimCore is lo (lo + 1 + body.flatten.length + 1) (fun y => x == y || Block.assigns y body) s t t' s' ∧
@@ -182,7 +194,7 @@ theorem for_iter (is : List Instruction) (f : Nat) (hB : BlockSim is f) (hF : Fo
     (kw x handle hn : Str) (body : Block) (kwEnd : Str) (lo : Nat) (own : ForCall) (K : List ForCall)
     (L rest : List Str) (s1 : Sdk) (t0 t1 t' : TState)
     (hkw : isForKw kw = true) (hbwf : body.wf = true) (hkend : isEndForKw kwEnd = true)
-    (hx : isLiteral x = true) (hbs : body.simple = true) (hh : handleVar? handle = some hn)
+    (hx : isLiteral x = true) (hbs : body.simple2 = true) (hh : handleVar? handle = some hn)
     (hxn : x ≠ hn) (hbn : body.assigns hn = false)
     (hat : At is lo (Stmt.forIn kw x handle body kwEnd).flatten)
     (hst : s1.forStack = own :: K) (hos : own.start = lo)
@@ -190,6 +202,7 @@ theorem for_iter (is : List Instruction) (f : Nat) (hB : BlockSim is f) (hF : Fo
     (hL : t0.sdk.handles.get ((t0.vars.get hn).getD []) = some L) (hdrop : L.drop own.iteration = rest)
     (hend : s1.endTable.get (lineKey s1 (lo + 1 + body.flatten.length)) = some fullNameEndForIn)
     (hc : CacheOK is s1) (hrel : Rel s1 t0) (hfor : ForOK lo (lo + 1 + body.flatten.length + 1) K)
+    (hsb : safeBlock is f body t0 = true) (hsr : safeFor is f x rest body t1 = true)
     (hb : execBlock is f body t0 = .normal t1) (hr : execFor is f x rest body t1 = .normal t') :
     ∃ s', Steps is (lo + 1) t0.vars s1 (lo + 1 + body.flatten.length + 1) t'.vars s' ∧
       SimCore is lo (lo + 1 + body.flatten.length + 1) (fun y => x == y || Block.assigns y body) s1 t0 t' s' ∧
@@ -206,7 +219,7 @@ theorem for_iter (is : List Instruction) (f : Nat) (hB : BlockSim is f) (hF : Fo
         intro e he
         rcases List.mem_cons.mp he with rfl | he
         · omega
-        · have := hfor e he; omega) hb
+        · have := hfor e he; omega) hsb hb
   have hend2 : s2.endTable.get (lineKey s2 (lo + 1 + body.flatten.length)) = some fullNameEndForIn := by
     rw [lineKey_congr hcore2.frame.ctx, hcore2.frame.endT _ (.inr (by omega))]
     exact hend
@@ -218,7 +231,7 @@ theorem for_iter (is : List Instruction) (f : Nat) (hB : BlockSim is f) (hF : Fo
   obtain ⟨s4, hst4, hcore4, hif4, hwh4, hfor4⟩ :=
     hF kw x handle hn body kwEnd lo own K L rest s2 t1 t' hkw hbwf hkend hx hbs hh hxn hbn hat0
       (hfor2.trans hst) hos hop (hctx.trans (hcore2.frame.ctx).symm)
-      (by rw [hvar, hcore2.mono _ _ hL]; rfl) hdrop hend2 hcore2.cache hcore2.rel hfor hr
+      (by rw [hvar, hcore2.mono _ _ hL]; rfl) hdrop hend2 hcore2.cache hcore2.rel hfor hsr hr
   refine ⟨s4, (hst2.trans hstep3).trans hst4, ?_, ?_, ?_, hfor4⟩
   · refine (hcore2.mono' (by omega) (by omega) ?_).trans hcore4
     intro y hy
@@ -236,7 +249,7 @@ theorem drop_some_of_ne {o : Option (List Str)} {L : List Str} {k : Nat} {a : St
 theorem for_step (is : List Instruction) (f : Nat) (hB : BlockSim is f) (hF : ForSim is f) :
     ForSim is (f + 1) := by
   intro kw x handle hn body kwEnd lo own K L items s t t' hkw hbwf hkend hx hbs hh hxn hbn hat hst hos
-    hop hctx hL hdrop hend hc hrel hfor hex
+    hop hctx hL hdrop hend hc hrel hfor hsafe hex
   have hat0 := hat
   rw [flatten_for] at hat
   have hi := At.head hat
@@ -261,13 +274,16 @@ theorem for_step (is : List Instruction) (f : Nat) (hB : BlockSim is f) (hF : Fo
     have hstep := step_for_next_some is lo t.vars s _ kw x handle _ own K val hi hkw hbind hst hos hctx
       (hidx.trans hget)
     simp only [execFor] at hex
+    simp only [safeFor, Bool.and_eq_true] at hsafe
     cases hb : execBlock is f body { t with vars := t.vars.set x val } with
     | returning v t1 => rw [hb] at hex; simp at hex
     | failed => rw [hb] at hex; simp at hex
     | outOfFuel => rw [hb] at hex; simp at hex
     | normal t1 =>
       rw [hb] at hex
-      simp only at hex
+      have hsafe2 := hsafe.2
+      rw [hb] at hsafe2
+      simp only at hex hsafe2
       have hvar0 : (t.vars.set x val).get hn = t.vars.get hn := Vars.get_set_ne _ _ _ _ hxn
       obtain ⟨s4, hst4, hcore4, hif4, hwh4, hfor4⟩ :=
         for_iter is f hB hF kw x handle hn body kwEnd lo
@@ -275,7 +291,8 @@ theorem for_step (is : List Instruction) (f : Nat) (hB : BlockSim is f) (hF : Fo
           { s with forStack := { own with iteration := own.iteration + 1, ctx := s.lineCtx } :: K }
           { t with vars := t.vars.set x val } t1 t' hkw hbwf hkend hx hbs hh hxn hbn hat0 rfl hos hop rfl
           (by simp only; rw [hvar0]; exact hLsome) hdrop' hend (hc.of_eq rfl rfl rfl rfl)
-          ⟨hrel.handles, hrel.next, hrel.emitted, hrel.sfns, hrel.tsfns, hrel.tfns, hrel.hok⟩ hfor hb hex
+          ⟨hrel.handles, hrel.next, hrel.emitted, hrel.sfns, hrel.tsfns, hrel.tfns, hrel.hok⟩ hfor
+          hsafe.1 hsafe2 hb hex
       refine ⟨s4, hstep.trans hst4, ?_, hif4, hwh4, hfor4⟩
       have h0 : SimCore is lo (lo + 1 + body.flatten.length + 1) (fun y => x == y || Block.assigns y body)
           s t { t with vars := t.vars.set x val }
@@ -292,8 +309,8 @@ theorem stmt_for (is : List Instruction) (fuel : Nat)
     (hall : ∀ m, m < fuel + 1 → BlockSim is m ∧ ForSim is m)
     (kw x handle : Str) (body : Block) (kwEnd : Str) :
     StmtSimFor is (fuel + 1) (.forIn kw x handle body kwEnd) := by
-  intro lo s t t' hwf hs hat hc hrel hfor hex
-  have hnf := Stmt.noFn_of_simple _ hs
+  intro lo s t t' hwf hs hat hc hrel hfor hsafe hex
+  have hnf := Stmt.noFn_of_simple2 _ hs
   have hscan : findCommands forTables is (lo + 1) = .ok ⟨[], lo + 1 + body.flatten.length⟩ := by
     obtain ⟨pre, post, hpl, his⟩ := hat
     have := C04_scan_for pre post kw x handle body kwEnd hwf hnf
@@ -306,7 +323,7 @@ theorem stmt_for (is : List Instruction) (fuel : Nat)
   have hat0 := hat
   rw [flatten_for] at hat
   simp only [flatten_for, List.length_cons, List.length_append, List.length_nil] at hfor ⊢
-  simp only [Stmt.wf, Stmt.simple, Bool.and_eq_true] at hwf hs
+  simp only [Stmt.wf, Stmt.simple2, Bool.and_eq_true] at hwf hs
   obtain ⟨⟨hkw, hbwf⟩, hkend⟩ := hwf
   obtain ⟨⟨⟨hx, hxne⟩, hbs⟩, hhandle⟩ := hs
   cases hh : handleVar? handle with
@@ -324,7 +341,8 @@ theorem stmt_for (is : List Instruction) (fuel : Nat)
       have := hfor e he
       omega
     simp only [execStmt, bind_handle t.vars handle hn hh] at hex
-    generalize hLdef : (t.sdk.handles.get ((t.vars.get hn).getD [])).getD [] = L at hex
+    simp only [safeStmt, bind_handle t.vars handle hn hh] at hsafe
+    generalize hLdef : (t.sdk.handles.get ((t.vars.get hn).getD [])).getD [] = L at hex hsafe
     have hidx : (s.handles.get ((t.vars.get hn).getD [])).bind (fun l => l[0]?) = L[0]? := by
       rw [get_bind_idx, hrel.handles, hLdef]
     cases fuel with
@@ -338,20 +356,23 @@ theorem stmt_for (is : List Instruction) (fuel : Nat)
         obtain ⟨M, hstep1, hcache1⟩ := step_for_first_none is lo t.vars s _ kw x handle _ [] _ hi hkw
           hbind hc hscan habs (hidx.trans rfl)
         exact ⟨_, hstep1,
-          SimCore.opener (lo + 1 + body.flatten.length) fullNameEndForIn hcache1 hrel rfl rfl rfl rfl
+          SimCore.opener0 (lo + 1 + body.flatten.length) fullNameEndForIn hcache1 hrel rfl rfl rfl rfl
             rfl rfl (by omega) (by omega),
           Garb.refl _ _ _ _, Garb.refl _ _ _ _, rfl⟩
       | cons val rest =>
         obtain ⟨M, hstep1, hcache1⟩ := step_for_first_some is lo t.vars s _ kw x handle _ [] _ val hi hkw
           hbind hc hscan habs (hidx.trans rfl)
         simp only [execFor] at hex
+        simp only [safeFor, Bool.and_eq_true] at hsafe
         cases hb : execBlock is f body { t with vars := t.vars.set x val } with
         | returning v t1 => rw [hb] at hex; simp at hex
         | failed => rw [hb] at hex; simp at hex
         | outOfFuel => rw [hb] at hex; simp at hex
         | normal t1 =>
           rw [hb] at hex
-          simp only at hex
+          have hsafe2 := hsafe.2
+          rw [hb] at hsafe2
+          simp only at hex hsafe2
           have hvar0 : (t.vars.set x val).get hn = t.vars.get hn := Vars.get_set_ne _ _ _ _ hxn
           have hLsome : t.sdk.handles.get ((t.vars.get hn).getD []) = some (val :: rest) :=
             drop_some_of_ne (k := 0) hLdef rfl
@@ -366,7 +387,8 @@ theorem stmt_for (is : List Instruction) (fuel : Nat)
               { t with vars := t.vars.set x val } t1 t' hkw hbwf hkend hx hbs hh hxn hbn hat0 rfl rfl rfl rfl
               (by simp only; rw [hvar0]; exact hLsome) rfl (KV.get_put_self _ _ _)
               (hcache1.of_eq rfl rfl rfl rfl)
-              ⟨hrel.handles, hrel.next, hrel.emitted, hrel.sfns, hrel.tsfns, hrel.tfns, hrel.hok⟩ hfor hb hex
+              ⟨hrel.handles, hrel.next, hrel.emitted, hrel.sfns, hrel.tsfns, hrel.tfns, hrel.hok⟩ hfor
+              hsafe.1 hsafe2 hb hex
           refine ⟨s4, hstep1.trans hst4, ?_, hif4, hwh4, hfor4⟩
           have h0 : SimCore is lo (lo + 1 + body.flatten.length + 1)
               (fun y => Stmt.assigns y (.forIn kw x handle body kwEnd))
